@@ -73,27 +73,8 @@ fn pool_progs() -> Vec<(&'static str, Prog)> {
     // f6: forty choices
     v.push(("chain(40)", prog::family_chain(40, &[B::Min, B::Max, B::And, B::Or], 3)));
     // f7: HUGE - about 1400 values live at once (more than 1024 spill slots
-    // even with 255 registers) and one choice: c[0] = x, c[i+1] = 0.999 c[i] + k_i,
-    // result min(sum_i c[i] * c[i + half], 1e30)
-    let half = 1400;
-    let mut p = Prog::default();
-    let mut cur = p.push(POp::Var(0));
-    let mut c = vec![];
-    for i in 0..2 * half {
-        c.push(cur);
-        let k = p.push(POp::Const(0.999));
-        let m = p.push(POp::Bin(B::Mul, cur, k));
-        let k2 = p.push(POp::Const(0.001 * (i as f32 + 1.0)));
-        cur = p.push(POp::Bin(B::Add, m, k2));
-    }
-    let mut sum = p.push(POp::Bin(B::Mul, c[0], c[half]));
-    for i in 1..half {
-        let q = p.push(POp::Bin(B::Mul, c[i], c[i + half]));
-        sum = p.push(POp::Bin(B::Add, sum, q));
-    }
-    let big = p.push(POp::Const(1e30));
-    let r = p.push(POp::Bin(B::Min, sum, big));
-    p.roots = vec![r];
+    // even with 255 registers) and one choice
+    let p = prog::huge_prog(1400, true);
     v.push(("huge: 1400 live values, one choice", p));
     v
 }
